@@ -1355,7 +1355,7 @@ fn main() {
     if dbg { eprintln!("C16DBG random stream took {:?}", t0.elapsed()); for f in &rep.failures { eprintln!("C16DBG {} {} {} || exp {} || obs {}", f.kind, f.class, f.input, f.expected, f.observed); } }
 
     // ---- replicated pair, oracle only
-    let np = if only == "corpus" || only == "random" { 0 } else { args.cases(24, 500) };
+    let np = if only == "corpus" || only == "random" { 0 } else { args.cases(24, 300) };
     let mut pair: Option<Pair> = None;
     let mut pbase = 1000u64;
     let mut pair_fail = false;
